@@ -2,7 +2,7 @@
 import random
 from . import common as C, vec as V
 
-CMP = {'less': 0, 'greater': 1, 'mod': 2, 'stateful': 3}
+CMP = {'less': 0, 'greater': 1, 'mod': 2, 'stateful': 3, 'mix': 4}
 UVEC = {'amc': 0, 'small': 1, 'fixed': 2, 'std': 3}
 
 class SetCfg:
